@@ -21,19 +21,81 @@ def engine_traces(run, profile, n, length=0, states="both", label=None, extra=No
     run.sample({"trace_stage": label, "first_events": [describe(json.loads(x)) for x in lines[2:8]]})
     return out
 
-def c02(run):
-    q = run.tier == "quick"
-    run.model_check("EngineMC.tla", "MC_facts.cfg")
-    engine_traces(run, "facts", 60 if q else 600)
-    run.assumptions += ["TLC 1.8 and the Json/IOUtils community modules",
-                        "harness/enc lexical tables (strings starting with ? or !, integral numbers)",
-                        "harness/world error classification by error type/message class"]
-    return run.finish(rule="seeded random histories (AddFact/RemFact/GetFact/SearchFacts over 3 ids + generated ids, "
-                           "facts/patterns from a nested JSON grammar) on indexed and linear state; every event "
-                           "(result + storage ids) is checked by TLC against Engine!Step; "
-                           "states/transitions are those of the exhaustive MC_facts model")
+TRUSTED = ["TLC 1.8 and the Json/IOUtils community modules",
+           "harness/enc lexical tables (strings starting with ? or !, integral numbers, durations, times)",
+           "harness/world: error classification by error type / message class; projection of results",
+           "real time: an operation that straddles a UNIX-second boundary voids its trace (re-run), never judged"]
 
-CHECKS = {"C02": c02}
+def engine_prop(run, mc_cfgs, stages, rule):
+    """The common shape of the Engine-family checks: exhaustive TLC on the small
+    model(s), then seeded histories on the real code validated line by line."""
+    for cfg in mc_cfgs:
+        run.model_check("EngineMC.tla", cfg)
+    for st in stages:
+        engine_traces(run, **st)
+    run.assumptions += TRUSTED
+    return run.finish(rule=rule)
+
+def n(run, quick, thorough):
+    return quick if run.tier == "quick" else thorough
+
+def c01(run):
+    return engine_prop(run, ["MC_rules.cfg"],
+        [dict(profile="rules", n=n(run, 60, 800), extra=["-mixed-events"]),
+         dict(profile="parents", n=n(run, 30, 400), extra=["-mixed-events"])],
+        "seeded random histories of AddRule/RemRule/AddFact-on-rule-id/EnableRule/Clear/ProcessEvent/SearchRules/ListRules "
+        "(one location; three locations with changing parents) on indexed and linear state; TLC compares FindRules' "
+        "children (rule id, when-bindings) of every event with Engine!OpProcessEvent; rule actions are trivial scripts")
+
+def c02(run):
+    return engine_prop(run, ["MC_facts.cfg"],
+        [dict(profile="facts", n=n(run, 60, 800)), dict(profile="cascade", n=n(run, 20, 300))],
+        "seeded random histories (AddFact/RemFact/GetFact/SearchFacts over 3-4 ids + generated ids; facts and patterns "
+        "from a nested JSON grammar with repeated variables, arrays, empty containers) on indexed and linear state; "
+        "every result (ids, bindings, bodies) and the storage id set after every call are checked against Engine!Step")
+
+def c07(run):
+    return engine_prop(run, ["MC_expiry.cfg"] if run.tier == "thorough" else ["MC_expiry_q.cfg"],
+        [dict(profile="expiry", n=n(run, 40, 400))],
+        "seeded histories with ttl (number, duration string) and expires (number, RFC3339) facts and rules, real sleeps "
+        "across the expiry instant, reloads, reads by get/search/event; TLC checks every result against Engine with the "
+        "recorded UNIX second: expires instants in returned bodies, never-seen-after, must-purge from storage once observed, "
+        "rejection of already expired writes")
+
+def c08(run):
+    return engine_prop(run, ["MC_facts.cfg"],
+        [dict(profile="cascade", n=n(run, 60, 800)), dict(profile="expiry", n=n(run, 15, 200), label="expiry-cascade")],
+        "seeded histories over 4 ids with deleteWith graphs (chains, fans, cycles, self-loops, dangling targets; facts, rules "
+        "and !disabled property facts as nodes), removals by RemFact/RemRule/expiry; the storage id set after every call "
+        "must equal the specification's cascade closure")
+
+def c09(run):
+    return engine_prop(run, ["MC_parents.cfg"],
+        [dict(profile="parents", n=n(run, 60, 800))],
+        "seeded histories spread over locations A,B,C with changing parent lists (self loops, indirect loops, diamonds), "
+        "inherited searches, ListRules, SearchRules and events; every result and every location's storage ids are checked "
+        "against Engine (isolation: an operation on one location changes only that location)")
+
+def c10(run):
+    return engine_prop(run, ["MC_rules.cfg"],
+        [dict(profile="rules", n=n(run, 50, 600), label="rules-lifecycle"),
+         dict(profile="lifecycle", n=n(run, 40, 500))],
+        "seeded histories of add/overwrite/remove/disable/enable/reload/location-disable with events (one location and "
+        "parent/child), indexed and linear; TLC checks which rules fire for every event and the class of every refusal")
+
+def c19(run):
+    return engine_prop(run, ["MC_guards.cfg"],
+        [dict(profile="guards", n=n(run, 60, 800))],
+        "seeded histories that set/clear write key, read key, read-only mode and the enabled flag and call every "
+        "operation with no key / wrong key / right key; TLC checks refusal class and that storage is unchanged on refusal")
+
+def c20(run):
+    return engine_prop(run, ["MC_guards.cfg"],
+        [dict(profile="capacity", n=n(run, 60, 800))],
+        "capacity: seeded add/remove histories around MaxFacts=3 (facts, rules, property facts), StateSize after adds; "
+        "TLC checks refusal exactly at capacity and no side effect of a refused add")
+
+CHECKS = {"C01": c01, "C02": c02, "C07": c07, "C08": c08, "C09": c09, "C10": c10, "C19": c19, "C20": c20}
 
 def replay(run, path):
     rejected, out = run.validate("EngineTrace.tla", "EngineTrace.cfg", path, "replay")
